@@ -201,7 +201,9 @@ pub fn check_frame(c: &FrameCase, st: &mut Stats) -> Result<(), Viol> {
     st.nontrivial(format!("{}|{}", sent_len, c.crlf), || json!({"line_length": sent_len, "crlf": c.crlf, "417": got_417, "delivered_to_observer": delivered}));
     let fail = |sig: &str, msg: String| Viol::new("C13.framing", format!("framing:{}", sig), format!("line of {} bytes ({}): {}; sender got {:?}", sent_len, if c.crlf { "CRLF" } else { "LF" }, msg, mine));
     if got_417 > 0 {
-        if sent_len <= 1990 {
+        // LINELEN=2000 is advertised: a line of 1998 bytes plus CRLF is within the limit under
+        // either reading (terminator counted or not), one of 2001 bytes is over it under both
+        if sent_len <= 1998 {
             return Err(fail("short-rejected", "a line within the limit was answered with ERR_INPUTTOOLONG".into()));
         }
         if got_417 != 1 {
@@ -211,7 +213,7 @@ pub fn check_frame(c: &FrameCase, st: &mut Stats) -> Result<(), Viol> {
             return Err(fail("part-executed", format!("an over-long line was partly executed: the observer received {:?}", obs)));
         }
     } else {
-        if sent_len >= 2010 {
+        if sent_len >= 2001 {
             return Err(fail("long-accepted", "a line over the limit was not answered with ERR_INPUTTOOLONG".into()));
         }
         if delivered != 1 {
